@@ -76,6 +76,50 @@ Definition chk_poly (c : poly_case) : bool :=
   forallb (fun j => Qleb (Qabs (dot (col j A) (p_out c))) (p_rtol c * scale * inject_Z (Z.of_nat (length (p_y c)))))
           (seq 0 (S (p_k c))).
 
+(** ** remove_poly on LONG records (tens of thousands of samples).  The record is shipped in compact form: an integer
+    pattern repeated, y_i = pat[i mod p], i < n.  The exact least-squares polynomial is obtained from the normal equations
+    written with the integer power sums P_m = sum_i i^m and B_m = sum_i y_i i^m (x_i = i/(n-1)), solved by the model's own
+    Gauss-Jordan elimination; the solution is checked against these equations here.  The implementation's output is compared with
+    y_i - p(x_i) at a sparse set of positions (l_samples : (i, out_i)), and its length and dt are compared. *)
+Record polyl_case := { l_k : nat; l_n : Z; l_pat : list Z; l_samples : list (Z * Q); l_len_out : Z; l_dt : Q; l_dt_out : Q; l_rtol : Q }.
+Definition pat_at (pat : list Z) (i : Z) : Z := nth (Z.to_nat (i mod Z.of_nat (length pat))) pat 0%Z.
+Fixpoint zpows (i : Z) (m : nat) (cur : Z) : list Z := match m with O => [cur] | S m' => cur :: zpows i m' (cur * i)%Z end.
+(** (P_0..P_mm, B_0..B_mm) *)
+Definition psums (n : Z) (pat : list Z) (mm : nat) : list Z * list Z :=
+  let step (a : Z * (list Z * list Z)) :=
+    let '(i, (P, B)) := a in
+    let y := pat_at pat i in
+    let pw := zpows i mm 1%Z in
+    ((i + 1)%Z, (map2 Z.add P pw, map2 (fun b p => (b + y * p)%Z) B pw)) in
+  snd (Z.iter n step (0%Z, (repeat 0%Z (S mm), repeat 0%Z (S mm)))).
+Definition qdivz (a b : Z) : Q := Qred (inject_Z a / inject_Z b).
+(** rows of [A^T A | A^T y] for the columns x^k, ..., x^0 *)
+Definition long_aug (k : nat) (n : Z) (pat : list Z) : list (list Q) :=
+  let '(P, B) := psums n pat (2 * k) in
+  let d := (n - 1)%Z in
+  let Sx m := qdivz (nth m P 0%Z) (d ^ Z.of_nat m) in
+  let Bq m := qdivz (nth m B 0%Z) (d ^ Z.of_nat m) in
+  map (fun j => map (fun l => Sx (2 * k - j - l)%nat) (seq 0 (S k)) ++ [Bq (k - j)%nat]) (seq 0 (S k)).
+Definition long_cofs (k : nat) (n : Z) (pat : list Z) : list Q :=
+  match gauss_jordan (S k) 0 [] (long_aug k n pat) with
+  | None => []
+  | Some rows => map (fun r => Qred (last r 0%Q)) rows
+  end.
+Definition long_normal_okb (k : nat) (aug : list (list Q)) (cf : list Q) : bool :=
+  forallb (fun r => Qeqb (dot (firstn (S k) r) cf) (last r 0%Q)) aug.
+Definition long_model_at (k : nat) (n : Z) (pat : list Z) (cf : list Q) (i : Z) : Q :=
+  let x := qdivz i (n - 1) in
+  Qred (inject_Z (pat_at pat i) - dot (prow k x) cf).
+Definition chk_polyl (c : polyl_case) : bool :=
+  let k := l_k c in let n := l_n c in let pat := l_pat c in
+  let cf := long_cofs k n pat in
+  let scale := qabsmax (map inject_Z pat) in
+  (2 <=? n)%Z && negb (Nat.eqb (length pat) 0) && Nat.eqb (length cf) (S k) && long_normal_okb k (long_aug k n pat) cf &&
+  Z.eqb (l_len_out c) n && Qeqb (l_dt c) (l_dt_out c) && negb (Nat.eqb (length (l_samples c)) 0) &&
+  forallb (fun s => (0 <=? fst s)%Z && (fst s <? n)%Z && qclose (l_rtol c * scale) (long_model_at k n pat cf (fst s)) (snd s)) (l_samples c).
+Definition polyl_model_out (c : polyl_case) : list Q :=
+  let cf := long_cofs (l_k c) (l_n c) (l_pat c) in map (fun s => long_model_at (l_k c) (l_n c) (l_pat c) cf (fst s)) (l_samples c).
+
 (** ** adds.  a_kind: 0 add_constant, 1 add_series, 2 add_signal (a_is_sig false = argument is not a Signal).
     a_err: implementation raised SignalProcessingError *)
 Record add_case := { a_kind : nat; a_x : list Q; a_dt : Q; a_const : Q; a_other : list Q; a_other_dt : Q; a_is_sig : bool;
@@ -107,13 +151,14 @@ Inductive any_case :=
 | CLin (c : Q * Q * list Q * list Q * list Q * Q)
 | CGain (c : nat * nat * Q * list Q * Q * list (Q * Q) * Q)
 | CPoly (c : poly_case)
+| CPolyL (c : polyl_case)
 | CSame (c : list Q * list Q * Q * Q)
 | CAdd (c : add_case)
 | CRavg (c : nat * list Q * list Q * Q).
 Definition check_case (c : any_case) : bool :=
   match c with
   | CBp c => chk_bp c | CLin c => chk_lin c | CGain c => chk_gain c | CPoly c => chk_poly c
-  | CSame c => chk_same c | CAdd c => chk_add c | CRavg c => chk_ravg c
+  | CSame c => chk_same c | CAdd c => chk_add c | CRavg c => chk_ravg c | CPolyL c => chk_polyl c
   end.
 Inductive any_out :=
 | OBp (o : (bp_error + (nat * btype * list Q * list Q)) * (bp_error + @signal Q))
@@ -124,5 +169,5 @@ Inductive any_out :=
 Definition model_out (c : any_case) : any_out :=
   match c with
   | CBp c => OBp (bp_model_out c) | CGain c => OGain (gain_model_out c) | CPoly c => OList (poly_model c)
-  | CAdd c => OAdd (add_model c) | CRavg c => OList (ravg_model_out c) | _ => ONone
+  | CAdd c => OAdd (add_model c) | CRavg c => OList (ravg_model_out c) | CPolyL c => OList (polyl_model_out c) | _ => ONone
   end.
